@@ -22,20 +22,24 @@ func (s propSpec) keeps(rule string) bool {
 }
 
 type rl = []func(*Run)
+type kp = []string
 
 var properties = map[string]propSpec{
-	"C01": {Rules: rl{ruleMutateRelay, ruleCascade}, Keep: []string{"C1", "E4"}},
-	"C02": {Rules: rl{ruleMutateRelay, ruleAnswers, ruleSenderExcluded, ruleDecoratorForward, ruleBroadcastShape}, Keep: []string{"C1", "B5", "C2", "A2", "C3"}},
-	"C03": {Rules: rl{ruleSenderExcluded, ruleJoinedGuard, rulePairedState, ruleDispatchTotal, ruleAnswers}, Keep: []string{"J1", "J2", "E9", "A1", "B5"}},
+	"C01": {Rules: rl{ruleMutateRelay, ruleCascade, ruleSnapshot, ruleErrorDiscipline}, Keep: kp{"C1", "E4", "C7", "ERR"}},
+	"C02": {Rules: rl{ruleMutateRelay, ruleAnswers, ruleSenderExcluded, ruleDecoratorForward, ruleBroadcastShape}, Keep: kp{"C1", "B5", "C2", "A2", "C3"}},
+	"C03": {Rules: rl{ruleSenderExcluded, ruleJoinedGuard, rulePairedState, ruleDispatchTotal, ruleAnswers, ruleModuleInit}, Keep: kp{"J1", "J2", "E9", "A1", "B5", "J3"}},
 	"C04": {Rules: rl{ruleDispatchTotal, ruleAnswers, ruleJoinedGuard, ruleDecoratorForward}},
-	"C05": {Rules: rl{ruleOwnerGuard, ruleAnswers, ruleSenderExcluded, ruleIDGenerator}, Keep: []string{"D1", "B5", "J1", "D3"}},
-	"C06": {Rules: rl{ruleLeaveComplete, ruleLeaveCallers, ruleModuleCleanup, ruleCascade, ruleDecoratorForward, ruleMutateRelay}, Keep: []string{"E1", "E2", "E3", "E4", "E6", "E9", "A2", "C1"}},
-	"C07": {Rules: rl{ruleLeaveComplete, ruleLeaveCallers}, Keep: []string{"E1", "E2", "E6"}},
-	"C08": {Rules: rl{ruleDecoratorForward}, Keep: []string{"A2"}},
-	"C10": {Rules: rl{ruleIDGenerator, ruleStoreContracts}, Keep: []string{"D3", "D4"}},
-	"C12": {Rules: rl{ruleStoreContracts, ruleCascade}, Keep: []string{"S-", "D4", "E4"}},
-	"C13": {Rules: rl{ruleNotifyGated, ruleSenderExcluded, ruleSubscriptions}, Keep: []string{"C5", "C2", "S-"}},
-	"C14": {Rules: rl{ruleBroadcastShape, ruleSenderExcluded}, Keep: []string{"C3", "J6", "C2"}},
+	"C05": {Rules: rl{ruleOwnerGuard, ruleAnswers, ruleSenderExcluded, ruleIDGenerator}, Keep: kp{"D1", "B5", "J1", "D3"}},
+	"C06": {Rules: rl{ruleLeaveComplete, ruleLeaveCallers, ruleModuleCleanup, ruleCascade, ruleDecoratorForward, ruleMutateRelay, ruleSnapshot}, Keep: kp{"E1", "E2", "E3", "E4", "E6", "E9", "A2", "C1", "C7"}},
+	"C07": {Rules: rl{ruleLeaveComplete, ruleLeaveCallers}, Keep: kp{"E1", "E2", "E6"}},
+	"C08": {Rules: rl{ruleDecoratorForward, rulePBNil}, Keep: kp{"A2", "G1"}},
+	"C10": {Rules: rl{ruleIDGenerator, ruleStoreContracts}, Keep: kp{"D3", "D4"}},
+	"C11": {Rules: rl{rulePBNil, ruleSnapshot, ruleAnswers, ruleOwnerGuard}, Keep: kp{"G1", "C11-pose", "B5", "D1"}},
+	"C12": {Rules: rl{ruleStoreContracts, ruleCascade, ruleErrorDiscipline}, Keep: kp{"S-", "D4", "E4", "ERR"}},
+	"C13": {Rules: rl{ruleNotifyGated, ruleSenderExcluded, ruleSubscriptions}, Keep: kp{"C5", "C2", "S-"}},
+	"C14": {Rules: rl{ruleBroadcastShape, ruleSenderExcluded, ruleCustomMessage}, Keep: kp{"C3", "J6", "C2", "H1", "H4"}},
+	"C16": {Rules: rl{ruleEntityActions, ruleSnapshot, ruleOwnerGuard, ruleModuleInit, ruleModuleCleanup}, Keep: kp{"H3", "S-", "D5", "C7", "D1", "J4", "J3", "E3"}},
 	"C17": {Rules: rl{ruleFlagWrap}},
-	"X":   {Rules: rl{ruleStoreContracts, ruleSubscriptions, ruleIDGenerator, ruleBroadcastShape}},
+	"C18": {Rules: rl{ruleLatencyStart}, Keep: kp{"H2", "I2"}},
+	"C20": {Rules: rl{ruleModuleInit}, Keep: kp{"J3", "J4"}},
 }
